@@ -23,7 +23,7 @@ def same(a, b):
         return False
     if (ua is None) != (ub is None):
         return False
-    return ua is None or (set(ua) == set(ub) and all(torch.equal(ua[k], ub[k]) for k in ua))
+    return ua is None or (set(ua) == set(ub) and all(ua[k].dtype == ub[k].dtype and torch.equal(ua[k], ub[k]) for k in ua))
 
 
 def interleaving(kind, seed, steps=25):
@@ -37,8 +37,12 @@ def interleaving(kind, seed, steps=25):
         def fresh():
             nv, nh, na = rnd.choice([(2, 3, 1), (2, 1, 2), (3, 2, 2)])
             ud = None
-            if kind != "positive" and rnd.random() < 0.5:
+            r = rnd.random()
+            if kind != "positive" and r < 0.35:
                 ud = unitaries.create_dict(H=torch.tensor([[[1., 1.], [1., -1.]], [[0., 0.], [0., 0.]]]) / np.sqrt(2))
+            elif kind != "positive" and r < 0.7:
+                # not a superset of the defaults, one single-precision entry
+                ud = {"Z": unitaries.create_dict()["Z"], "H": (torch.tensor([[[1., 1.], [1., -1.]], [[0., 0.], [0., 0.]]]) / np.sqrt(2)).float()}
             st = C.make_state(kind, nv, nh, na, unitary_dict=ud)
             C.randomize(st, rng, 1.0)
             return st
